@@ -193,10 +193,11 @@ def make_inten(F, shape):
 def plan(tier, seed):
     shards = []
     if tier == "quick":
-        specs = [((2, 3), 1), ((2, 3), 2), ((2, 3), 3), ((3, 3), 2), ((2, 2), 4), ((1 + 1, 4), 2)]
+        # (2,6)/(6,2)/(2,7): elongated frames - blobs that lie further along the long axis than the short one is wide
+        specs = [((2, 3), 1), ((2, 3), 2), ((2, 3), 3), ((3, 3), 2), ((2, 2), 4), ((1 + 1, 4), 2), ((2, 6), 1), ((6, 2), 1), ((2, 7), 1), ((7, 2), 1)]
     else:
         specs = [((2, 3), 1), ((2, 3), 2), ((2, 3), 3), ((2, 3), 4), ((3, 3), 2), ((2, 2), 4), ((2, 2), 5), ((2, 4), 2),
-                 ((2, 4), 3), ((3, 2), 3)]
+                 ((2, 4), 3), ((3, 2), 3), ((2, 6), 1), ((6, 2), 1), ((2, 7), 1), ((7, 2), 1), ((2, 6), 2), ((6, 2), 2)]
     for shape, F in specs:
         nimg = 1 << (shape[0] * shape[1])
         total = nimg ** F
@@ -240,9 +241,15 @@ def _run_seq(desc):
         step = steps[(q + seed) % 3]
         omegas = 10.0 + step * np.arange(F)
         case = {"kind": "seq", "shape": list(shape), "frames": digs, "omega_step": step}
-        exp, multi = expected_peaks(frames, inten, omegas)
-        rows = run_sequence(labelimage, frames, inten, omegas)
-        compare(sh, case, rows, exp)
+        # every fourth sequence with all intensities (and the threshold) scaled down by 16: weak normalised data, peaks whose whole
+        # intensity is below 0.1 (multiples of 1/16 still print exactly in the four-decimal output format)
+        # (small sequence spaces: every sequence both ways)
+        for scale in ((1.0, 2.0 ** -4) if n * F <= 12 else ((2.0 ** -4,) if (q + q // nimg) % 4 == 1 else (1.0,))):
+            if scale != 1.0:
+                case = dict(case, intensity_scale=scale)
+            exp, multi = expected_peaks(frames, inten * scale, omegas)
+            rows = run_sequence(labelimage, frames, inten * scale, omegas, thr=0.5 * scale)
+            compare(sh, case, rows, exp)
         sh.evaluations += 1
         if multi:
             sh.nontrivial += 1
@@ -500,8 +507,9 @@ def replay(case):
         frames = np.array([_bits_img(d, shape) for d in case["frames"]])
         inten = make_inten(F, shape)
         omegas = 10.0 + case["omega_step"] * np.arange(F)
-        exp, multi = expected_peaks(frames, inten, omegas)
-        rows = run_sequence(labelimage, frames, inten, omegas)
+        scale = case.get("intensity_scale", 1.0)
+        exp, multi = expected_peaks(frames, inten * scale, omegas)
+        rows = run_sequence(labelimage, frames, inten * scale, omegas, thr=0.5 * scale)
         compare(sh, case, rows, exp)
         return (not sh.violations), {"rows": rows, "expected": exp, "violations": sh.violations}
     if case["kind"] == "peaksearcher":
